@@ -462,8 +462,11 @@ impl<'de, K: Key, S: BuildHasher + Default> Deserialize<'de> for RodeoReader<K, 
                 }
                 RawEntryMut::Vacant(entry) => {
                     // Create the key from the vec's index that the string will hold
-                    let key =
-                        K::try_from_usize(key).expect("failed to create key while deserializing");
+                    let key = K::try_from_usize(key).ok_or_else(|| {
+                        serde::de::Error::custom(
+                            "more strings in a serialized interner than the key type can index",
+                        )
+                    })?;
 
                     // Push the allocated string to the strings vector
                     strings.push(allocated);
